@@ -123,11 +123,19 @@ class AsyncioTransportStreamSocketAdapter(AsyncStreamTransport):
         # Do not hand empty buffers over to the asyncio transport: a zero-length buffer left in its write queue is never
         # removed (sendmsg() reports 0 byte sent for it), so the write callback would be called in a busy loop
         # and transport.close() would never complete.
-        self.__transport.writelines([data for data in iterable_of_data if memoryview(data).nbytes])
-        # Unlike write(), writelines() does not always check if the protocol must be paused
-        # (e.g. asyncio's selector transport in CPython 3.12.1): the data would silently pile up in memory.
-        # Applying the limits again runs this check, and is a no-op if nothing is left in the write buffer.
-        self.__transport.set_write_buffer_limits(0)
+        try:
+            self.__transport.writelines([data for data in iterable_of_data if memoryview(data).nbytes])
+        except AttributeError:
+            # Unlike write(), writelines() does not always cope with a transport whose connection is already lost
+            # (e.g. asyncio's selector transport in CPython 3.12.1 uses its event loop, which is None by then).
+            # Do what write() does: drop the data. writer_drain() raises the connection error.
+            if not self.__transport.is_closing():
+                raise
+        else:
+            # Unlike write(), writelines() does not always check if the protocol must be paused
+            # (e.g. asyncio's selector transport in CPython 3.12.1): the data would silently pile up in memory.
+            # Applying the limits again runs this check, and is a no-op if nothing is left in the write buffer.
+            self.__transport.set_write_buffer_limits(0)
         await self.__protocol.writer_drain()
 
     async def send_eof(self) -> None:
